@@ -5,6 +5,7 @@ import AcraModel.KeystoreSec.ConcurrentFresh
 import AcraModel.KeystoreSec.ConcurrentCreate
 import AcraModel.KeystoreSec.ConcurrentLock
 import AcraModel.KeystoreSec.FileLockLemmas
+import AcraModel.KeystoreSec.ConcurrentCurrent
 import AcraModel.Generated.KeystoreCreate
 import AcraModel.Generated.FileLock
 /-!
@@ -69,6 +70,21 @@ theorem fact_open_cycle :
     openKeyRingROCalls = ["newKeyRing", "s.readKeyRing"] ∧
     newKeyRingData = ["Purpose=asn1.LikelyUTF8String(path)", "Keys=make([]asn1.Key, 0)", "Current=asn1.NoKey"] ∧
     emptyRing = ⟨[], noKey⟩ := by decide
+
+open Generated.KeystoreSec in
+/-- The optimistic checks are the ones `Tx.apply` models, on the values `prepare` takes from the handle's
+view: `KeyRing.setCurrent` records the current marker **the handle sees** (`r.data.Current`, before the
+ring is pulled from the store) in the transaction, and `txSetKeyCurrent.Apply` refuses
+(`errTxConcurrentModification`) when the marker found in the pulled ring is a different one, then
+requires both keys to exist; `txChangeKeyState.Apply` refuses when the key's state is not the one seen;
+`txAddKey.Apply` refuses a sequence number that is taken; `nextSeqnum` is "last key + 1". -/
+theorem fact_optimistic_checks :
+    setCurrentBody = ["oldSeqnum := r.data.Current", "r.pushTX(&txSetKeyCurrent{oldSeqnum, newSeqnum})", "err := r.store.syncKeyRing(r)", "if err != nil { r.popTX() }", "return err"] ∧
+    txSetKeyCurrentApply = ["if ring.data.Current != tx.oldSeqnum { return errTxConcurrentModification }", "if tx.oldSeqnum != asn1.NoKey { oldKey, _ := ring.data.KeyWithSeqnum(tx.oldSeqnum) if oldKey == nil { return errTxKeyNotFound } }", "newKey, _ := ring.data.KeyWithSeqnum(tx.newSeqnum)", "if newKey == nil { return errTxKeyNotFound }", "ring.data.Current = tx.newSeqnum", "return nil"] ∧
+    txChangeKeyStateApply = ["key, _ := ring.data.KeyWithSeqnum(tx.keySeqnum)", "if key == nil { return errTxKeyNotFound }", "oldState := asn1.KeyState(tx.oldState)", "newState := asn1.KeyState(tx.newState)", "if key.State != oldState { return errTxConcurrentModification }", "key.State = newState", "return nil"] ∧
+    txAddKeyApply = ["k, _ := ring.data.KeyWithSeqnum(tx.newKey.Seqnum)", "if k != nil { return errTxKeyExists }", "ring.data.Keys = append(ring.data.Keys, *tx.newKey)", "return nil"] ∧
+    nextSeqnumBody = ["if len(r.data.Keys) == 0 { return firstSeqnum }", "return r.data.Keys[len(r.data.Keys)-1].Seqnum + 1"] := by
+  refine ⟨by rfl, by rfl, by rfl, by rfl, by rfl⟩
 
 /-- the model's own constants agree with the regenerated ones -/
 theorem fact_model_constants :
@@ -325,6 +341,58 @@ theorem stale_success_is_fresh_success (s0 : St) (h0 : Initial s0) (p : Nat) (hp
   have hsim := run_sim s0.cur s0 _ sched hinv0 hsim0
   have hpre : SnapPrefix (a.snap i) (a.cur p) := by rw [hsim.cur p]; exact hseq
   exact ⟨hpre, fun op txs r' sn' h => atomicOp_fresh _ _ op txs r' sn' hpre h⟩
+
+/-! ## the current marker -/
+
+/-- **The current key is the one of the last committed `SetCurrent`.** Under every schedule, for every
+ring path, the current marker of the stored ring is the one written by the last transaction list in the
+commit log (rename order) that sets it – `SetCurrent`, or an import – and the initial marker when there
+is none: a `SetCurrent` that committed earlier never overrides one that committed later, whatever the
+interleaving of the back-end calls. -/
+theorem current_is_last_committed (s0 : St) (h0 : Initial s0) (sched : List Nat) (p : Nat) :
+    ((run s0 sched).cur p).current = lastCurrent (s0.cur p).current (commitsOn (run s0 sched) p) :=
+  replay_current _ _ _ ((v2_linearizable s0 h0 sched).2.1.2 p)
+
+/-- **Every committed `SetCurrent` replaced the marker its handle had seen.** Under every schedule: split
+the commit log of a ring at any committed `SetCurrent` transaction `{old, new}`; then the commits before it
+replay (from the initial ring) to a ring whose current marker is `old` – the marker in the handle's view
+when the operation was prepared – and which holds the key `new`. A `SetCurrent` prepared from a view that
+another writer's committed `SetCurrent` has made stale is therefore never in the commit log: with
+`success_iff_committed_once` it returned an error, and (`stale_setCurrent_fails`) the atomic store it is
+compared with says the same. This is the statement the oracle class `not-linearizable:setcurrent-stale`
+judges on the implementation's history. -/
+theorem committed_setCurrent_saw_current (s0 : St) (h0 : Initial s0) (sched : List Nat) (p : Nat)
+    (pre post : List (List Tx)) (old new : Int)
+    (hsplit : commitsOn (run s0 sched) p = pre ++ [.setCurrent old new] :: post) :
+    ∃ r1, replay (s0.cur p) pre = some r1 ∧ r1.current = old ∧ r1.hasSeq new = true := by
+  have hlin := (v2_linearizable s0 h0 sched).2.1.2 p
+  rw [hsplit, replay_append] at hlin
+  cases h1 : replay (s0.cur p) pre with
+  | none => simp [h1] at hlin
+  | some r1 =>
+    simp only [h1, Option.bind_some, replay, applyAll] at hlin
+    cases h2 : (Tx.setCurrent old new).apply r1 with
+    | none => simp [h2] at hlin
+    | some r2 =>
+      obtain ⟨hc, hn, _⟩ := setCurrent_apply_pre h2
+      exact ⟨r1, rfl, hc, hn⟩
+
+/-- **A stale `SetCurrent` fails.** In the atomic key store a `SetCurrent` from a handle whose view has a
+different current marker than the stored ring fails, stores nothing and refreshes the view. -/
+theorem stale_setCurrent_fails (ring snap : Ring) (s : Int) (h : snap.current ≠ ring.current) :
+    atomicOp ring snap (.setCurrent s) = (ring, ring, none) :=
+  atomicOp_setCurrent_stale ring snap s h
+
+/-- the scenario of the oracle's corpus, in the atomic store: ring `[key 1 (current)]`; handle A adds key 2;
+handle B (fresh view) adds key 3 and makes it current; A's `SetCurrent 2` – prepared from "current is 1" –
+fails and key 3 stays current (non-vacuity of `stale_setCurrent_fails`) -/
+example :
+    let r0 : Ring := ⟨[⟨1, 2, 1⟩], 1⟩
+    let a1 := atomicOp r0 r0 (.addKey 10)
+    let b1 := atomicOp a1.1 a1.1 (.addKey 11)
+    let b2 := atomicOp b1.1 b1.2.1 (.setCurrent 3)
+    let a2 := atomicOp b2.1 a1.2.1 (.setCurrent 2)
+    b2.2.2.isSome = true ∧ a2.2.2 = none ∧ a2.1.current = 3 := by decide
 
 /-! ## ring creation -/
 
